@@ -119,6 +119,83 @@ namespace c14
         static int id(const Throwing &x) { return x.id(); }
     };
 
+    // ------------------------------------------------------------ element types with mixed triviality
+    // TrivAssign: constructors and destructor register in the Tracked registry (keyed by address, no heap
+    // cell), copy assignment is implicit and TRIVIAL: a container that picks a memcpy path by looking at the
+    // wrong trait (is_trivially_copy_assignable) skips constructions / destructions this type makes visible.
+    struct TrivAssign
+    {
+        int v;
+        void born()
+        {
+            vf::TrackedReg &r = vf::treg();
+            if (r.live.count(this))
+                Tracked::err("construct-over-live", this);
+            r.live[this] = 1;
+            r.constructed++;
+        }
+        TrivAssign() : v(0) { born(); }
+        TrivAssign(int id) : v(id) { born(); }
+        TrivAssign(const TrivAssign &o) : v(o.id()) { born(); }
+        ~TrivAssign()
+        {
+            vf::TrackedReg &r = vf::treg();
+            auto it = r.live.find(this);
+            if (it == r.live.end())
+            {
+                Tracked::err("destroy-nonlive", this);
+                return;
+            }
+            r.live.erase(it);
+            r.destroyed++;
+        }
+        TrivAssign &operator=(const TrivAssign &) = default;
+        int id() const
+        {
+            if (!Tracked::is_live(this))
+            {
+                Tracked::err("read-nonlive", this);
+                return -3;
+            }
+            return v;
+        }
+    };
+    static_assert(std::is_trivially_copy_assignable_v<TrivAssign> && !std::is_trivially_copy_constructible_v<TrivAssign> &&
+                  !std::is_trivially_destructible_v<TrivAssign>);
+    template <> struct El<TrivAssign>
+    {
+        static constexpr const char *name = "TrivAssign";
+        static constexpr bool tracked = true;
+        static constexpr int default_id = 0;
+        static TrivAssign make(int id) { return TrivAssign(id); }
+        static int arg(int id) { return id; }
+        static int id(const TrivAssign &x) { return x.id(); }
+    };
+    // TrivLife: the mirror image - trivial construction / destruction, user-provided assignment that keeps a
+    // checksum member in step
+    struct TrivLife
+    {
+        int v;
+        int twice;
+        TrivLife &operator=(const TrivLife &o)
+        {
+            v = o.v;
+            twice = 2 * o.v;
+            return *this;
+        }
+    };
+    static_assert(std::is_trivially_copy_constructible_v<TrivLife> && std::is_trivially_destructible_v<TrivLife> &&
+                  !std::is_trivially_copy_assignable_v<TrivLife>);
+    template <> struct El<TrivLife>
+    {
+        static constexpr const char *name = "TrivLife";
+        static constexpr bool tracked = false;
+        static constexpr int default_id = 0;
+        static TrivLife make(int id) { return TrivLife{id, 2 * id}; }
+        static TrivLife arg(int id) { return make(id); }
+        static int id(const TrivLife &x) { return x.twice == 2 * x.v ? x.v : -7; }
+    };
+
     // ------------------------------------------------------------ harness-owned iterators
     // InIt: a genuine single-pass input iterator. All copies share one source; advancing any copy
     // consumes the source, and using a copy that was left behind (or reading at the end) is reported.
@@ -989,7 +1066,8 @@ namespace c14
             }
             for (auto &o : ops)
             {
-                if (o.kind != S_CTOR_RANGE && o.kind != S_CTOR_IL && o.kind != S_RESIZE && o.kind != S_COPY_ASSIGN_FROM && o.kind != S_MOVE_ASSIGN_FROM)
+                if (o.kind != S_CTOR_RANGE && o.kind != S_CTOR_IL && o.kind != S_RESIZE && o.kind != S_COPY_ASSIGN_FROM && o.kind != S_MOVE_ASSIGN_FROM &&
+                    o.kind != S_COPY_ASSIGN_TO && o.kind != S_MOVE_ASSIGN_TO && o.kind != S_COPY_CTOR)
                     continue;
                 Hs h;
                 h.start(boxed);
@@ -1192,6 +1270,27 @@ namespace c14
         }
     };
 
+    // (f) element types with mixed triviality, N in {3,5}: the length / assignment sweep (every size assigned to
+    //     every other size) and random histories
+    template <class T> struct MixedTriv
+    {
+        static uint64_t nrand() { return vf::thorough() ? 40000 : 400; }
+        static uint64_t count() { return SVCtor<T, 3>::count() + SVCtor<T, 5>::count() + nrand(); }
+        static void run(uint64_t idx)
+        {
+            if (idx < SVCtor<T, 3>::count())
+                return SVCtor<T, 3>::run(idx);
+            idx -= SVCtor<T, 3>::count();
+            if (idx < SVCtor<T, 5>::count())
+                return SVCtor<T, 5>::run(idx);
+            idx -= SVCtor<T, 5>::count();
+            VF_OK("element types with trivial assignment but non-trivial lifetime (and the reverse)");
+            if (idx & 1)
+                return SVRand<T, 3>::run(idx);
+            SVRand<T, 5>::run(idx);
+        }
+    };
+
     // dispatch one suite index over N in {1,2,3,5,8}
     template <class T, template <class, size_t> class S> struct OverN
     {
@@ -1243,3 +1342,4 @@ namespace c14
     VF_SUITE(faults_enumerate_##tag, (c14::OverN<c14::Throwing, c14::SVFault>::count), (c14::OverN<c14::Throwing, c14::SVFault>::run)) \
     VF_SUITE(faults_random_##tag, (c14::RandOverN<c14::Throwing>::count), (c14::RandOverN<c14::Throwing>::run))
 #define C14_SV_BOUNDARY_SUITES(T, tag) VF_SUITE(boundary_##tag, (c14::BoundaryOverN<T>::count), (c14::BoundaryOverN<T>::run))
+#define C14_SV_MIXED_SUITES(T, tag) VF_SUITE(mixed_triviality_##tag, (c14::MixedTriv<T>::count), (c14::MixedTriv<T>::run))
